@@ -10,7 +10,9 @@
      the hash, [t_from]/[t_sig] for the result of types.Sender, [t_intr] for
      the router's IntrinsicGas of its payload;
    - txSortedMap = the item map (list without order) + the Flatten cache; the
-     nonce heap is the order of the items;
+     nonce heap is the order of the items (that the Go array is a min-heap over
+     exactly the item keys is checked on the implementation by the harness oracle
+     after every critical section, clause nonce-heap-corrupt);
    - txPricedList is the price order over [all] (its intended meaning: every
      pooled transaction is in the heap and stale entries are skipped);
    - txNoncer.get's memoisation of the fallback value is not represented
